@@ -70,6 +70,31 @@ Theorem c14_batch_projects_to_standalone_books : forall start a q i m m' b,
   exists b', nth_error m' a = Some b' /\ asset_run a start i b q = Ok b'.
 Proof. exact (fun start a => process_all_projects start a). Qed.
 
+(** ... and that stand-alone run is an ordinary book history - a list of [set_time] and
+    [process_event] operations executed by [Book.run] - so every book-level theorem (priority,
+    ledger, lifecycle, views, snapshots: C01-C07) applies to each asset of a stepping environment. *)
+Theorem c14_step_is_book_histories : forall L e g e' g',
+  Forall (fun b => bounded b = true) (en_market e) ->
+  menv_step L e g = Ok (e', g') ->
+  exists start q g1, market_time (en_market e) = Ok start /\ shuffle (en_queue e) g = Some (q, g1) /\
+    forall a b, nth_error (en_market e) a = Some b ->
+      exists b1, run b (OResetTvol :: asset_ops a start 0 q) = Ok b1 /\
+                 nth_error (en_market e') a = Some (set_time b1 (start + en_step e)).
+Proof. exact step_projects_to_runs. Qed.
+
+(** For instance price-time priority (C01), asset by asset through a step: each asset's book after the
+    step abstracts to what the reference engine makes of that asset's own instructions, fed at the
+    same times. *)
+Theorem c14_each_asset_matches_reference_engine : forall L e g e' g',
+  Forall Inv (en_market e) -> Forall (fun b => bounded b = true) (en_market e) ->
+  Forall (fun ev => match ev with MModify _ _ (Some p) _ => p <= MAXP | _ => True end) (en_queue e) ->
+  menv_step L e g = Ok (e', g') ->
+  exists start q g1, market_time (en_market e) = Ok start /\ shuffle (en_queue e) g = Some (q, g1) /\
+    forall a b, nth_error (en_market e) a = Some b ->
+      exists b1 xs, ref_run_outs (abs b) (OResetTvol :: asset_ops a start 0 q) = Some (abs b1, xs) /\ Inv b1 /\
+                    nth_error (en_market e') a = Some (set_time b1 (start + en_step e)).
+Proof. exact step_refines_per_asset. Qed.
+
 (** Non-vacuity: a two-asset batch; asset 1's book ends exactly where the stand-alone run ends. *)
 Example c14_projection_nonvacuous :
   (do m <- market_new 0 [1; 5] true;
@@ -87,6 +112,8 @@ Check c14_direct_op_local.
 Print Assumptions c14_direct_op_local.
 Print Assumptions c14_step_projects_to_standalone_books.
 Print Assumptions c14_batch_projects_to_standalone_books.
+Print Assumptions c14_step_is_book_histories.
+Print Assumptions c14_each_asset_matches_reference_engine.
 Print Assumptions c14_event_local.
 Print Assumptions c14_clock_shared.
 Print Assumptions c14_ids_per_asset.
